@@ -539,8 +539,19 @@ def r4(ctx):
         raise AnchorError("loop census too small: %s" % n)
 
 
+def r5(ctx):
+    """'...ends that session cleanly and serves the next one': the state a peer's bytes can leave behind (partial link frame in the
+    parser / receive buffer, half-assembled fragment, secondary-station state) is dropped on every exit of the session tasks, all the
+    way down. The chain itself is rule C08.R7 (shared code); it is evaluated here because stale reader state wedges the next session."""
+    import c08
+    c08.r7(ctx)
+    import c06
+    c06.r9(ctx)
+
+
 RULES = [
     ("C01.R1", "T1", "every panic site reachable from a spawned task is auto-discharged or reviewed", r1),
     ("C01.R3", "T8", "the length later unwrapped from the tx buffer is the length written", r3),
     ("C01.R4", "loop-census", "no reachable cycle without exit or await; synchronous non-iterator loops are listed", r4),
+    ("C01.R5", "T3", "session end drops all per-connection reader state (reset chain; receive-buffer index discipline)", r5),
 ]
